@@ -152,6 +152,17 @@ def check(prop, tier, seed):
                 continue
             if project(spec, c.kind, iv) != project(spec, c.kind, mv):
                 mismatches.append(c)
+        if spec.needs_release and reldir:
+            # the same cases on the release build (wrapping arithmetic, no debug assertions)
+            impl_r, _, verdict_r = runner.evaluate(prop, prop + '-release', lines, reldir, obs_bin=spec.obs_bin,
+                                                   timeout=spec.timeout.get(tier, 1800), want_model=False)
+            stats['release_build_cases'] = len(verdict_r)
+            for c in cases:
+                vr = verdict_r.get(c.cid, '')
+                if is_fail(vr) and not is_fail(verdict.get(c.cid, '')):
+                    verdict[c.cid] = vr + ' build=release'
+                    impl[c.cid] = impl_r.get(c.cid, {})
+                    fails.append(c)
         if spec.extra:
             for name, fn in spec.extra:
                 r = fn(tier, seed, bindir, reldir, rng)
